@@ -3,3 +3,36 @@ from impl_rag import run_history
 
 def history(case, d):
     return run_history(case, d, want_regen=False)
+
+
+def chdir_resize(case, d):
+    """a handle opened through a RELATIVE path, then the working directory changes, then the length is
+    changed through that handle: whatever the calls do (they may well fail), the files must stay a
+    well-formed ragged array"""
+    import os
+    import numpy as np
+    import darr
+    from impl_rag import observe
+    from impl_arr import call
+    home = os.getcwd()
+    path = os.path.join(d, 'sub', 'r.darr')
+    os.makedirs(os.path.join(d, 'sub'))
+    os.makedirs(os.path.join(d, 'other'))
+    darr.asraggedarray(path, [np.arange(2 * int(np.prod(case['atom'])), dtype=case['dtype']).reshape((2,) + tuple(case['atom'])),
+                              np.zeros((1,) + tuple(case['atom']), dtype=case['dtype'])], indextype=case['indextype'])
+    steps = []
+    try:
+        os.chdir(d)
+        ra = darr.RaggedArray(os.path.join('sub', 'r.darr'), accessmode='r+')
+        os.chdir(os.path.join(d, 'other'))
+        for what in case['ops']:
+            if what == 'append':
+                res = call(lambda: ra.append(np.ones((1,) + tuple(case['atom']), dtype=case['dtype'])))
+            elif what == 'truncate':
+                res = call(lambda: darr.truncate_raggedarray(ra, 1))
+            elif what == 'meta':
+                res = call(lambda: ra.metadata.update({'a': 1}))
+            steps.append(observe(darr.RaggedArray(path), path, [], res, [], [], want_regen=False))
+    finally:
+        os.chdir(home)
+    return steps
